@@ -311,7 +311,9 @@ pub fn c08(spec: &WorldSpec, ex: &Exec) -> Option<Viol> {
                             *pf.counts.entry(*s).or_insert(0) += 1;
                             // a member that greeted while the broadcast was in progress may be included
                             let live_now = subs[*s as usize].greeted_at.is_some() && !subs[*s as usize].sent_term && !subs[*s as usize].sent_err;
-                            if !pf.eligible.contains(s) && !live_now {
+                            // never to a member that has completed (even if it completed while this very
+                            // broadcast was in progress), and never to one that has not greeted
+                            if !live_now {
                                 found = Some(viol(spec, "pull-sent-to-member-not-live", i, format!("a sink Pull was relayed to member sub {s}, which had not greeted or had completed")));
                             }
                         }
@@ -511,6 +513,10 @@ pub fn c10(spec: &WorldSpec, ex: &Exec) -> Option<Viol> {
                     sub_stopped[*s as usize] = true;
                 }
                 if *m == M::Pull {
+                    if sub_self_ended[*s as usize] {
+                        found = Some(viol(spec, "pull-sent-to-member-not-running", i, format!("a Pull was relayed to member sub {s}, which has already ended")));
+                        return;
+                    }
                     if let Some(fr) = innermost_send(stack) {
                         if let Some(pf) = pulls.iter_mut().find(|p| p.start == fr.start) {
                             *pf.counts.entry(*s).or_insert(0) += 1;
